@@ -70,6 +70,9 @@ func (c *Ctx) checkSubstMatrices() {
 	} {
 		t, err := findTable(pk, spec.mat)
 		if err != nil {
+			if c.waiveIfNotLiteral("subst-matrix", err) {
+				return
+			}
 			L.Unknown("subst-matrix", "align."+spec.mat, "literal evaluates", "-", err.Error())
 			continue
 		}
@@ -117,6 +120,9 @@ func (c *Ctx) checkSubstMatrices() {
 		}
 		ti, err := findTable(pk, spec.idx)
 		if err != nil {
+			if c.waiveIfNotLiteral("index-map", err) {
+				return
+			}
 			L.Unknown("index-map", "align."+spec.idx, "literal evaluates", "-", err.Error())
 			continue
 		}
